@@ -1,7 +1,7 @@
 (* C02 — table obligations: facts about the source as extracted into Tables.v on
    this run, each discharged by closed computation.  When the source changes
    shape exactly the lemma naming that shape stops checking. *)
-From G02 Require Import RespFraming Client WriterProofs.
+From G02 Require Import RespFraming Client Check CodecProofs WriterProofs ResponseProofs.
 Open Scope N_scope.
 
 (* flush.go: patternFlushWriter.Write looks for the pattern inside the write and across the write boundary *)
@@ -77,3 +77,7 @@ Proof. vm_compute. reflexivity. Qed.
 (* proxy_handler.go writeResponse: bodies of unknown length are flushed after every write *)
 Lemma ob_handler_flushes_every_write : hw_unknown_length_flushes_every_write = true.
 Proof. vm_compute. reflexivity. Qed.
+
+(* the run-time check of the theorem's hypotheses on observed responses is the theorem's own predicate *)
+Lemma ob_wf_twin : forall r order, wf_snapshot r order = wf_resp r order.
+Proof. intros r order. unfold wf_snapshot, wf_resp, wf_go, nocrlf_status. rewrite <- !andb_assoc. reflexivity. Qed.
